@@ -461,6 +461,9 @@ func (ex *Exec) callContract(fr *Frame, st *State, fn *ssa.Function, fc *FuncCon
 		if mentionsCallLog(e.E) {
 			continue // clauses about the callee's own outgoing calls are local to its verification
 		}
+		if e.Assumed {
+			ex.trustedUsed["assumed postcondition (not proved of the body): "+fnKey(fn)+" "+e.Label] = true
+		}
 		ex.assume(st, ex.evalBool(post, e.E))
 	}
 	ex.callLog = append(ex.callLog, &CallRec{Guard: pre.PC(), Key: fn.Name(), Args: args, Results: results, Pre: pre, Post: st.clone(), Seq: len(ex.callLog), Pos: pos})
